@@ -19,7 +19,9 @@ import LinVerif.Lemmas.C06WriteThrough
 import LinVerif.Lemmas.C06Reset
 import LinVerif.Lemmas.C06Micro
 import LinVerif.Lemmas.C06Sync
+import LinVerif.Lemmas.C06Msync
 import LinVerif.Model.FanOutPark
+import LinVerif.Model.C06Woken
 import LinVerif.Generated.C06
 
 set_option linter.unusedSimpArgs false
@@ -1265,6 +1267,238 @@ theorem expire_on_pending_drops_unacked :
     let good := run Variant.fixed (s.expire Variant.fixed false) [.create 0, .sync, .create 1]
     bad.q.ack = 11 ∧ lookup bad.live 1 = some ⟨11, 11, false⟩ ∧ bad.q.get 4 = .outOfRange ∧
     good.q.ack = 3 ∧ lookup good.live 1 = some ⟨11, 3, false⟩ ∧ good.q.get 4 = .ok 1 := by decide
+
+end Neg
+
+/-! ## Round 10: between NotEmpty's return and the lock of consume() (Model/C06Woken.lean)
+
+Realised on the code by the yield point `c06-consume-enter` (first line of `consume()`). -/
+
+/-- `consume()` either hands out consumed+1 ≤ appended of the state it runs in, or changes nothing -/
+theorem consumeInner_step (s : State) (g : Nat) (grp : Group) (hl : lookup s.live g = some grp) :
+    (s.consumeInner g = (s, .val noSeq) ∧ ¬ grp.consumed + 1 ≤ s.q.appended) ∨
+    (s.consumeInner g = (s.putGroup g { grp with consumed := grp.consumed + 1 }, .val (grp.consumed + 1)) ∧
+      grp.consumed + 1 ≤ s.q.appended) := by
+  unfold State.consumeInner
+  rw [hl]
+  by_cases hc : grp.consumed + 1 ≤ s.q.appended
+  · right; simp [hc]
+  · left; simp [hc]
+
+/-- for a group that is not paused the inner method is the whole `Consume` -/
+theorem consumeInner_eq_consume (s : State) (g : Nat) (grp : Group) (hl : lookup s.live g = some grp)
+    (hp : grp.paused = false) : s.consumeInner g = s.consume g := by
+  unfold State.consumeInner State.consume
+  rw [hl]
+  simp [hp]
+
+/-- (2) for a `Consume` call that has passed `NotEmpty` and was overtaken by ANY operations of other
+goroutines before it takes the lock (rewind, explicit resets, acks, Pause, puts — whatever the head it
+computed and whatever `NotEmpty` saw): what it hands out is consumed+1 of the state it locks in, at
+most the appended position; that becomes the consumed position and nothing else changes. -/
+theorem woken_consume_step (v : Variant) (w : WState) (g : Nat) (n : Int)
+    (h : (wstep v w (.wend g)).2 = .res (.res (.val n))) (hn : n ≠ noSeq) :
+    ∃ grp, lookup w.ps.s.live g = some grp ∧ n = grp.consumed + 1 ∧ n ≤ w.ps.s.q.appended ∧
+      (wstep v w (.wend g)).1.ps.s = w.ps.s.putGroup g { grp with consumed := n } := by
+  unfold wstep at h ⊢
+  by_cases hc : w.woken.contains g = true
+  · simp only [hc, if_true] at h ⊢
+    cases hl : lookup w.ps.s.live g with
+    | none =>
+      have : w.ps.s.consumeInner g = (w.ps.s, .noGroup) := by unfold State.consumeInner; rw [hl]
+      rw [this] at h; cases h
+    | some grp =>
+      rcases consumeInner_step w.ps.s g grp hl with ⟨he, _⟩ | ⟨he, hle⟩
+      · rw [he] at h; simp at h; exact absurd h.symm hn
+      · rw [he] at h ⊢
+        simp at h
+        subst h
+        exact ⟨grp, rfl, rfl, hle, rfl⟩
+  · simp only [hc] at h
+    cases h
+
+/-- … and when it hands out nothing, nothing moved and nothing was available at that moment -/
+theorem woken_consume_empty (v : Variant) (w : WState) (g : Nat) (grp : Group)
+    (hl : lookup w.ps.s.live g = some grp) (hc : -1 ≤ grp.consumed)
+    (h : (wstep v w (.wend g)).2 = .res (.res (.val noSeq))) :
+    (wstep v w (.wend g)).1.ps.s = w.ps.s ∧ w.ps.s.q.appended < grp.consumed + 1 := by
+  unfold wstep at h ⊢
+  by_cases hw : w.woken.contains g = true
+  · simp only [hw, if_true] at h ⊢
+    rcases consumeInner_step w.ps.s g grp hl with ⟨he, hlt⟩ | ⟨he, hle⟩
+    · rw [he]; exact ⟨rfl, by omega⟩
+    · rw [he] at h; simp [noSeq] at h; omega
+  · simp only [hw] at h
+    cases h
+
+/-- every step of a history with woken calls satisfies the guard on its embedded operation -/
+def WValid (v : Variant) (G : State → Op → Prop) : WState → List WOp → Prop
+  | _, [] => True
+  | w, .p (.op o) :: os => G w.ps.s o ∧ WValid v G (wstep v w (.p (.op o))).1 os
+  | w, o :: os => WValid v G (wstep v w o).1 os
+
+theorem consumeInner_invariants (s : State) (hb : Base s) (ho : Order s) (ha : Above s) (g : Nat) :
+    Base (s.consumeInner g).1 ∧ Order (s.consumeInner g).1 ∧ Above (s.consumeInner g).1 := by
+  cases hl : lookup s.live g with
+  | none =>
+    have : s.consumeInner g = (s, .noGroup) := by unfold State.consumeInner; rw [hl]
+    rw [this]; exact ⟨hb, ho, ha⟩
+  | some grp =>
+    rcases consumeInner_step s g grp hl with ⟨he, _⟩ | ⟨he, hle⟩
+    · rw [he]; exact ⟨hb, ho, ha⟩
+    · rw [he]
+      have hord := Order.live hb ho g grp hl
+      exact ⟨hb.putGroup g _, Order.putGroup ho g _ ⟨by show grp.ack ≤ grp.consumed + 1; omega, hle⟩,
+        Above.putGroup ha g _ (ha g grp hl)⟩
+
+/-- the invariants of clauses (1), (4), (5) survive every interleaving of three-step `Consume` calls
+(parked in NotEmpty, or overtaken between NotEmpty and the lock — also by a Pause, which `consume()`
+does not look at) with reset-free operations of other goroutines. -/
+theorem woken_invariants (v : Variant) :
+    ∀ (ops : List WOp) (w : WState), Base w.ps.s → Order w.ps.s → Above w.ps.s →
+      WValid v (fun s o => o.okAt s ∧ (v.liftConsumed = true ∨ o.restoreOrderedAt s) ∧
+        (v.freshAtQueueAck = true ∨ o.freshOkAt s)) w ops →
+      Base (wrun v w ops).ps.s ∧ Order (wrun v w ops).ps.s ∧ Above (wrun v w ops).ps.s
+  | [], _, hb, ho, ha, _ => ⟨hb, ho, ha⟩
+  | .p (.op o) :: os, w, hb, ho, ha, hv => by
+    have hstep : (wstep v w (.p (.op o))).1.ps.s = w.ps.s ∨ (wstep v w (.p (.op o))).1.ps.s = (step v w.ps.s o).1 := by
+      simp only [wstep]; split
+      · left; rfl
+      · right; rfl
+    rcases hstep with hs | hs
+    · exact woken_invariants v os _ (hs ▸ hb) (hs ▸ ho) (hs ▸ ha) hv.2
+    · exact woken_invariants v os _ (hs ▸ hb.step hv.1.1) (hs ▸ Order.step hb ho hv.1.1 hv.1.2.1)
+        (hs ▸ Above.step hb ha hv.1.1 hv.1.2.2) hv.2
+  | .p (.cbegin g) :: os, w, hb, ho, ha, hv => by
+    have hs : (wstep v w (.p (.cbegin g))).1.ps.s = w.ps.s := by
+      simp only [wstep]; split
+      · rfl
+      · show (pstep v w.ps (.cbegin g)).1.s = w.ps.s
+        simp only [pstep]; split <;> rfl
+    exact woken_invariants v os _ (hs ▸ hb) (hs ▸ ho) (hs ▸ ha) hv
+  | .p (.cend g) :: os, w, hb, ho, ha, hv => by
+    have hinv : Base (wstep v w (.p (.cend g))).1.ps.s ∧ Order (wstep v w (.p (.cend g))).1.ps.s ∧
+        Above (wstep v w (.p (.cend g))).1.ps.s := by
+      simp only [wstep]; split
+      · exact ⟨hb, ho, ha⟩
+      · exact parked_invariants v [.cend g] w.ps hb ho ha trivial
+    exact woken_invariants v os _ hinv.1 hinv.2.1 hinv.2.2 hv
+  | .wbegin g :: os, w, hb, ho, ha, hv => by
+    have hs : (wstep v w (.wbegin g)).1.ps.s = w.ps.s := by
+      simp only [wstep]; split
+      · split <;> rfl
+      · rfl
+    exact woken_invariants v os _ (hs ▸ hb) (hs ▸ ho) (hs ▸ ha) hv
+  | .wend g :: os, w, hb, ho, ha, hv => by
+    have hinv : Base (wstep v w (.wend g)).1.ps.s ∧ Order (wstep v w (.wend g)).1.ps.s ∧
+        Above (wstep v w (.wend g)).1.ps.s := by
+      simp only [wstep]; split
+      · exact consumeInner_invariants w.ps.s hb ho ha g
+      · exact ⟨hb, ho, ha⟩
+    exact woken_invariants v os _ hinv.1 hinv.2.1 hinv.2.2 hv
+
+/-- non-vacuity, and the shapes the yield point realises: overtaken by a rewind the call hands out
+rewind+1 (not the head 11 it computed); overtaken by a backwards index reset it returns "nothing
+available" without blocking; overtaken by a Pause it still hands out the next sequence. -/
+example :
+    let pre : List WOp := [.p (.op (.create 0))] ++ (List.replicate 12 (.p (.op (.append 1)))) ++
+      (List.replicate 10 (.p (.op (.consume 0)))) ++ [.p (.op (.ack 0 2)), .wbegin 0]
+    (wstep Variant.fixed (wrun Variant.fixed WState.init (pre ++ [.p (.op (.setConsumed 0 3))])) (.wend 0)).2 = .res (.res (.val 4)) ∧
+    (wstep Variant.fixed (wrun Variant.fixed WState.init (pre ++ [.p (.op (.setAppended 6))])) (.wend 0)).2 = .res (.res (.val (-1))) ∧
+    (wstep Variant.fixed (wrun Variant.fixed WState.init (pre ++ [.p (.op (.pause 0))])) (.wend 0)).2 = .res (.res (.val 10)) ∧
+    (wstep Variant.fixed (wrun Variant.fixed WState.init pre) (.p (.op (.stop 0)))).2 = .notEnabled := by decide
+
+/-! ## Round 10: the msync windows of Ack and of queue.SetAcknowledgedSeq (Model/C06Msync.lean) -/
+
+open LinVerif.FanOut.Msync in
+/-- The msync shape of the current source, computed from the regenerated access tables: `Ack` does
+not store to `acknowledgedSeq` after its msync (a failure is only logged), `queue.SetAcknowledgedSeq`
+reads, stores, writes the page and msyncs under `rwMutex.Lock` in that order, and so does
+`queue.SetAppendedSeq`. -/
+theorem msync_shape_tie :
+    Msync.shapeOf Generated.C06.ackAccess Generated.C06.queueSetAckAccess = Msync.Shape.pinned ∧
+    Generated.C06.queueSetAckAccess = [("R", "acknowledgedSeq", "rwMutex.Lock"), ("R", "appendedSeq", "rwMutex.Lock"),
+      ("W", "acknowledgedSeq", "rwMutex.Lock"), ("W", "metaPage", "rwMutex.Lock"), ("C", "msync", "rwMutex.Lock")] ∧
+    Generated.C06.queueSetAppendedAccess = [("W", "appendedSeq", "rwMutex.Lock"), ("W", "acknowledgedSeq", "rwMutex.Lock"),
+      ("R", "appendedSeq", "rwMutex.Lock"), ("W", "metaPage", "rwMutex.Lock"), ("R", "acknowledgedSeq", "rwMutex.Lock"),
+      ("W", "metaPage", "rwMutex.Lock"), ("C", "msync", "rwMutex.Lock")] := by decide
+
+open LinVerif.FanOut.Msync in
+/-- An Ack whose msync is in flight — its new position already visible to Sync and GC — while ANY
+enabled operations of other goroutines run (Sync, GC, appends, other groups, creates; any number),
+and whose msync then returns WITH OR WITHOUT an error: the state is that of the history with the Ack as
+one step at its Store. Full strength over the operations in between; pinned shape (no roll-back). -/
+theorem ack_msync_linearizes (v : Variant) (s : State) (g : Nat) (n : Int) (failed : Bool) (mids : List Op) (a' : AState)
+    (h : arun Shape.pinned v { s := s, inflight := none } (AOp.ackBegin g n :: (mids.map AOp.op ++ [AOp.ackEnd failed])) = some a') :
+    a'.s = run v s (Op.ack g n :: mids) ∧ a'.inflight = none :=
+  ack_linearizes Shape.pinned rfl v s g n failed mids a' h
+
+open LinVerif.FanOut.Msync in
+/-- … therefore every clause survives it: from a state satisfying the sequential invariants, after the
+Ack, any reset-free operations during its msync, and the (possibly failed) return, the queue ack is at
+or below every live group's ack, every group is ordered, and every meta page holds the in-memory
+positions — a position Sync has seen is never taken back. -/
+theorem ack_msync_invariants (v : Variant) (hl : v.liftConsumed = true) (hf : v.freshAtQueueAck = true)
+    (s : State) (hb : Base s) (ho : Order s) (ha : Above s) (g : Nat) (n : Int) (failed : Bool) (mids : List Op)
+    (hv : Valid v (fun s o => o.okAt s) s (Op.ack g n :: mids)) (a' : AState)
+    (h : arun Shape.pinned v { s := s, inflight := none } (AOp.ackBegin g n :: (mids.map AOp.op ++ [AOp.ackEnd failed])) = some a') :
+    Base a'.s ∧ Order a'.s ∧ Above a'.s := by
+  rw [(ack_msync_linearizes v s g n failed mids a' h).1]
+  exact inv_run (I := fun s => Base s ∧ Order s ∧ Above s)
+    (fun s o hi ok => ⟨hi.1.step ok, Order.step hi.1 hi.2.1 ok (Or.inl hl), Above.step hi.1 hi.2.2 ok (Or.inl hf)⟩)
+    _ s ⟨hb, ho, ha⟩ hv
+
+open LinVerif.FanOut.Msync in
+/-- queue.SetAcknowledgedSeq in the locked shape, ANY number of concurrent callers (Sync from several
+goroutines) interleaved with index resets and puts, every enabled schedule: the queue ack never
+exceeds the appended position, moves only forward along reset-free schedules, and whenever the lock
+is free the meta page holds it. -/
+theorem set_ack_locked_safe (app ack : Int) (h0 : ack ≤ app) (ops : List QOp) (q' : QState)
+    (h : qrun Shape.pinned (QState.start app ack) ops = some q') :
+    q'.sh.qack ≤ q'.sh.appended ∧ (q'.lock = none → q'.sh.mAck = q'.sh.qack) ∧
+    ((∀ o ∈ ops, ∀ n, o ≠ QOp.reset n) → ack ≤ q'.sh.qack) := by
+  obtain ⟨hi, hm⟩ := QInvL.run (sp := Shape.pinned) rfl ops _ q' (QInvL.start app ack h0) h
+  exact ⟨hi.le, fun hl => (hi.free hl).1, hm⟩
+
+namespace Neg
+open LinVerif.FanOut.Msync
+
+/-- the shape of seeded change c06-17 -/
+def rollbackShape : Shape := { ackRollsBack := true, setAckLocked := true }
+/-- the shape of seeded change c06-3 -/
+def unlockedShape : Shape := { ackRollsBack := false, setAckLocked := false }
+
+/-- two groups, twelve messages, both consumed 0..7; group 1 acknowledged 7, group 0 acknowledged 2 -/
+def msyncS0 : State := run Variant.fixed State.init ([.create 0, .create 1] ++ rep 12 (.append 1) ++ rep 8 (.consume 0) ++
+  rep 8 (.consume 1) ++ [.ack 1 7, .ack 0 2, .sync])
+
+/-- Roll-back shape: Ack(6) of group 0 publishes 6, Sync moves the queue ack to 6, GC runs, the
+msync fails, the position is taken back to 2: the queue ack 6 is beyond the group's ack 2 and the
+message 3 the group has not acknowledged is out of range. The same schedule in the pinned shape ends
+with the group at 6. -/
+theorem ack_rollback_after_failed_msync_fails :
+    ((arun rollbackShape Variant.fixed { s := msyncS0, inflight := none } [.ackBegin 0 6, .op .sync, .op .gc, .ackEnd true]).map
+      (fun a => (a.s.q.ack, (lookup a.s.live 0).map (·.ack), a.s.q.get 3)) : Option (Int × Option Int × GetRes)) =
+      some (6, some 2, GetRes.outOfRange) ∧
+    ((arun Shape.pinned Variant.fixed { s := msyncS0, inflight := none } [.ackBegin 0 6, .op .sync, .op .gc, .ackEnd true]).map
+      (fun a => (a.s.q.ack, (lookup a.s.live 0).map (·.ack))) : Option (Int × Option Int)) = some (6, some 6) := by decide
+
+/-- Unlocked shape, two Syncs: caller 0 passes the guard with 5 and sits in its msync, caller 1
+moves the queue ack to 8, caller 0 publishes 5: the queue ack moved BACKWARDS (8 → 5) with the meta
+page at 8. Not enabled in the pinned shape (caller 1 waits for the lock). -/
+theorem set_ack_unlocked_moves_back :
+    ((qrun unlockedShape (QState.start 12 3) [.enter 0 5, .persist 0, .enter 1 8, .persist 1, .publish 1]).map (·.sh) : Option QSh) =
+      some { appended := 12, qack := 8, mAck := 8 } ∧
+    ((qrun unlockedShape (QState.start 12 3) [.enter 0 5, .persist 0, .enter 1 8, .persist 1, .publish 1, .publish 0]).map (·.sh) : Option QSh) =
+      some { appended := 12, qack := 5, mAck := 8 } ∧
+    ((qrun Shape.pinned (QState.start 12 3) [.enter 0 5, .enter 1 8]).map (·.sh) : Option QSh) = none := by decide
+
+/-- Unlocked shape, Sync ‖ index reset: the guard passes with 8, the reset puts the queue to (3, 3),
+the delayed publish leaves the queue ack 8 above the appended position 3. -/
+theorem set_ack_unlocked_above_appended :
+    ((qrun unlockedShape (QState.start 12 3) [.enter 0 8, .persist 0, .reset 3, .publish 0]).map (·.sh) : Option QSh) =
+      some { appended := 3, qack := 8, mAck := 3 } ∧
+    ((qrun Shape.pinned (QState.start 12 3) [.enter 0 8, .reset 3]).map (·.sh) : Option QSh) = none := by decide
 
 end Neg
 
